@@ -592,7 +592,12 @@ fn pending_entries_from_events<'a>(
 ) -> Result<Vec<PendingEntry<'a>>, Error> {
     let mut replay = ReplayEvents::with_reference(events, reference_location);
     match replay.peek()? {
-        Some(Ev::Scalar { value, style, .. }) if scalar_is_nullish(value.as_ref(), style) => {
+        Some(Ev::Scalar {
+            value, style, tag, ..
+        }) if scalar_is_nullish(value.as_ref(), style)
+            && *tag != SfTag::String
+            && *tag != SfTag::Binary =>
+        {
             Ok(Vec::new())
         }
         Some(Ev::Scalar { location, .. }) => Err(Error::MergeValueNotMapOrSeqOfMaps {
@@ -657,7 +662,12 @@ fn pending_entries_from_live_events<'a>(
     merge_reference_location: Location,
 ) -> Result<Vec<PendingEntry<'a>>, Error> {
     match ev.peek()? {
-        Some(Ev::Scalar { value, style, .. }) if scalar_is_nullish(value.as_ref(), style) => {
+        Some(Ev::Scalar {
+            value, style, tag, ..
+        }) if scalar_is_nullish(value.as_ref(), style)
+            && *tag != SfTag::String
+            && *tag != SfTag::Binary =>
+        {
             let _ = ev.next()?;
             Ok(Vec::new())
         }
@@ -1177,7 +1187,8 @@ impl<'de, 'e> de::Deserializer<'de> for YamlDeserializer<'de, 'e> {
                 let is_plain = matches!(style, ScalarStyle::Plain);
                 // Treat all YAML null-like scalars (null, ~, empty) as null when typeless
                 // (`!!str null` is the string, not a null).
-                if scalar_is_nullish(value, style) && tag != &SfTag::String && tag != &SfTag::Binary {
+                if scalar_is_nullish(value, style) && tag != &SfTag::String && tag != &SfTag::Binary
+                {
                     let _ = self.ev.next()?; // consume
                     return visitor.visit_unit();
                 }
@@ -1454,7 +1465,9 @@ impl<'de, 'e> de::Deserializer<'de> for YamlDeserializer<'de, 'e> {
                 ..
             }) => {
                 // Check for null - not valid for string deserialization
-                if tag == &SfTag::Null || scalar_is_nullish(value, style) {
+                // (an explicit `!!str` makes the text a string whatever it spells).
+                if tag != &SfTag::String && (tag == &SfTag::Null || scalar_is_nullish(value, style))
+                {
                     let loc = *location;
                     let _ = self.ev.next()?;
                     return Err(Error::NullIntoString { location: loc });
@@ -1823,8 +1836,10 @@ impl<'de, 'e> de::Deserializer<'de> for YamlDeserializer<'de, 'e> {
             ..
         }) = self.ev.peek()?
         {
-            // Treat null-like scalar as an empty sequence.
-            if tag == &SfTag::Null || scalar_is_nullish(s, style) {
+            // Treat null-like scalar as an empty sequence (a `!!str` / `!!binary` scalar is never null).
+            if tag == &SfTag::Null
+                || (scalar_is_nullish(s, style) && tag != &SfTag::String && tag != &SfTag::Binary)
+            {
                 let _ = self.ev.next()?; // consume the null-like scalar
                 struct EmptySeq;
                 impl<'de> de::SeqAccess<'de> for EmptySeq {
@@ -2002,7 +2017,8 @@ impl<'de, 'e> de::Deserializer<'de> for YamlDeserializer<'de, 'e> {
             style,
             ..
         }) = self.ev.peek()?
-            && (tag == &SfTag::Null || scalar_is_nullish(s, style))
+            && (tag == &SfTag::Null
+                || (scalar_is_nullish(s, style) && tag != &SfTag::String && tag != &SfTag::Binary))
         {
             let _ = self.ev.next()?; // consume the null-like scalar
             struct EmptyMap;
@@ -2863,8 +2879,14 @@ impl<'de, 'e> de::Deserializer<'de> for YamlDeserializer<'de, 'e> {
                             Ok(())
                         }
                         Some(Ev::Scalar {
-                            value: s, style, ..
-                        }) if scalar_is_nullish(s, style) => {
+                            value: s,
+                            style,
+                            tag,
+                            ..
+                        }) if scalar_is_nullish(s, style)
+                            && *tag != SfTag::String
+                            && *tag != SfTag::Binary =>
+                        {
                             let _ = self.ev.next()?; // consume the null-like scalar
                             self.expect_map_end()
                         }
@@ -2992,8 +3014,16 @@ impl<'de, 'e> de::Deserializer<'de> for YamlDeserializer<'de, 'e> {
                 match self.replay.peek()? {
                     None => Ok(()),
                     Some(Ev::Scalar {
-                        value: s, style, ..
-                    }) if scalar_is_nullish(s, style) => Ok(()),
+                        value: s,
+                        style,
+                        tag,
+                        ..
+                    }) if scalar_is_nullish(s, style)
+                        && *tag != SfTag::String
+                        && *tag != SfTag::Binary =>
+                    {
+                        Ok(())
+                    }
                     Some(other) => Err(Error::UnexpectedValueForUnitEnumVariant {
                         location: other.location(),
                     }),
